@@ -18,9 +18,19 @@ def run(repo, pids=None):
         lib._SWEEP_CACHE.clear()
         try:
             mod, ctx = core.run_rules(pid, repo, "quick", 0)
-            out[pid] = {"violated": sorted({o.key for o in ctx.obligations
-                                            if not o.ok}),
-                        "undecided": len(ctx.undecided), "error": None}
+            core._IMPORT_CACHE.clear()
+            viol = sorted({o.key for o in ctx.obligations if not o.ok})
+            err = None
+            if not viol and not ctx.undecided:
+                # like `check`: instance floors are enforced on a clean run
+                for rule, n in getattr(mod, "FLOORS", {}).items():
+                    try:
+                        ctx.floor(rule, n)
+                    except AnalysisError as e:
+                        err = str(e)[:200]
+                        break
+            out[pid] = {"violated": viol, "undecided": len(ctx.undecided),
+                        "error": err}
         except AnalysisError as e:
             out[pid] = {"violated": [], "undecided": 0, "error": str(e)[:200]}
         except Exception:
